@@ -365,7 +365,8 @@ func (db *DB) Merge() error {
 				}
 
 			} else {
-				if err == io.EOF {
+				if err == io.EOF || isTornRecordErr(err) {
+					// as on Open: an incomplete record ends the log of this file
 					break
 				}
 				f.rwManager.Close()
